@@ -37,6 +37,23 @@ CHECKS = {
     "C17": ("static", "6 C17", "all ordered pairs of forwarding sites (type of a kind, handler variant, handler argument) with distinguishable marker "
             "attributes for contracts and interfaces; occurrences of each marker judged by TLC",
             "TLA+ spec + TLC (exhaustive small scope), in-process expansion, trace validation"),
+    "C07": ("reply", "6 C07", "ReplyRT.tla (build -> outcome -> dispatch) model-checked over the compiled reply tables; every reply "
+            "(handler incl. unknown id x outcome x events x data class) dispatched by the real sv::dispatch_reply, reply entry point and multitest impl; "
+            "routing, context, second parameter and pass-through arms judged by TLC (Trace_Reply)",
+            "TLA+ spec + TLC, compiled reply corpus, trace validation"),
+    "C08": ("reply", "6 C08", "ids, reply_on, kept message/gas limit, payload encoding of every generated builder over 5 receiver classes and the "
+            "end-to-end delivery of payload values judged by TLC against Reply.tla",
+            "TLA+ spec + TLC, compiled reply corpus, trace validation"),
+    "C09": ("reply", "6 C09", "7 data modes x 6 data classes through the real dispatcher; extraction outcome and decoded value judged by TLC "
+            "against Reply!Extract (with the documented nondeterminism)",
+            "TLA+ spec + TLC, compiled reply corpus, trace validation"),
+    "C14": ("reply+routing+static", "6 C14", "TLC proves order independence of the specification's observable reply table over all permutations; "
+            "all permutations of all small tables expanded in-process; declaration-order twins of reply and routing programs compiled and required "
+            "to build and to fail exactly the same clauses; override attributes in both orders",
+            "TLA+ lemma checked by TLC + in-process expansion + compiled twin programs validated against one order-free specification"),
+    "C18": ("static+reply", "6 C18", "one rule-breaking edit per documented rule on valid hosts and every reply table of <= MaxM methods "
+            "expanded in-process; accept/reject verdict judged by TLC against Static.tla / Reply!ValidTable",
+            "TLA+ spec + TLC (exhaustive small reply tables), in-process expansion, trace validation"),
 }
 
 
@@ -79,6 +96,9 @@ def main():
             {"name": "static", "path": "spec/Static.tla, spec/MC_Static.tla, spec/Trace_Static.tla, harness/gen/static.py, harness/inproc/harness.rs",
              "serves_properties": ["C06", "C13", "C15", "C17"],
              "kind_free_text": "TLC-enumerated source items expanded in-process by the real macro implementations + TLC trace validation"},
+            {"name": "reply", "path": "spec/Reply.tla, spec/ReplyRT.tla, spec/MC_Reply.tla, spec/Trace_Reply.tla, spec/Trace_Tables.tla, harness/gen/replies.py, harness/rrt/src/reply.rs",
+             "serves_properties": ["C07", "C08", "C09", "C14", "C18"],
+             "kind_free_text": "TLC bounded reply machine + compiled reply corpus + in-process expansion of all small tables + TLC trace validation"},
             {"name": "merge", "path": "spec/Merge.tla, spec/MC_Merge.tla, spec/Trace_Merge.tla, harness/merge",
              "serves_properties": ["C05"], "kind_free_text": "TLC exhaustive small scope + replay into the real function"},
         ],
